@@ -82,22 +82,18 @@ type layoutInfo struct {
 }
 
 type Layout struct {
-	mu sync.Mutex
-	m  map[types.Type]*layoutInfo
+	m sync.Map // types.Type -> *layoutInfo
 }
 
-var layouts = &Layout{m: map[types.Type]*layoutInfo{}}
+var layouts = &Layout{}
 
 func ncells(t types.Type) int { return layouts.get(t).n }
 
 func (l *Layout) get(t types.Type) *layoutInfo {
-	l.mu.Lock()
-	li, ok := l.m[t]
-	l.mu.Unlock()
-	if ok {
-		return li
+	if li, ok := l.m.Load(t); ok {
+		return li.(*layoutInfo)
 	}
-	li = &layoutInfo{}
+	li := &layoutInfo{}
 	switch u := t.Underlying().(type) {
 	case *types.Struct:
 		li.offs = make([]int, u.NumFields())
@@ -107,14 +103,10 @@ func (l *Layout) get(t types.Type) *layoutInfo {
 		}
 	case *types.Array:
 		li.n = int(u.Len()) * l.get(u.Elem()).n
-	case *types.Tuple:
-		li.n = 1
 	default:
 		li.n = 1
 	}
-	l.mu.Lock()
-	l.m[t] = li
-	l.mu.Unlock()
+	l.m.Store(t, li)
 	return li
 }
 
